@@ -216,6 +216,7 @@ def check(chk, repo):
                 continue
             bad = [e for e in w.events if e.kind == "store" and e.target[0] == "attr" and e.target[1] == ("self",)
                    and e.target[2] in config]
+            bad = [e for e in bad if not _per_call_scratch(repo, cls, w, e.target[2])]
             rep.fn("STATE-config", w.entry, f"{cls}.{m} leaves the configuration {sorted(config)} untouched", not bad,
                    "" if not bad else f"'{bad[0].text()[:80]}' changes an option of the model: a later fit/predict of the same "
                    "object on other data gives different results than a fresh, identically configured model")
@@ -242,6 +243,34 @@ def check(chk, repo):
     chk.undecided.append("bit-for-bit equality of two fits as a run-time fact (follows from determinism + no shared state)")
     chk.assumptions += ["NumPy view/copy rules as documented", "numba-compiled bodies have NumPy semantics",
                         "call resolution by method name is an over-approximation of the real call graph"]
+
+
+def _per_call_scratch(repo, cls, w, field) -> bool:
+    """A field the documented API does not know (no constructor parameter, no documented property of that name) that this
+    entry point re-creates - unconditionally, from a fresh value - before anything reads it: per-call working state, not
+    an option carried from call to call."""
+    from ..ir import api_signature, subterms
+    from ..rules_premise import without_validation
+    name = field.lstrip("_")
+    for ci in repo.mro(cls):
+        init = ci.methods.get("__init__")
+        if init is not None and api_signature(init) is not None and name in api_signature(init):
+            return False
+        g = ci.getters.get(name)
+        if g is not None and api_signature(g) is not None:
+            return False
+    v = without_validation(w)
+    tgt = ("attr", ("self",), field)
+    for e in v.events:
+        tops = [x for x in (e.value,) if x is not None] + list(e.args or ()) + [g for g, _ in e.guards]
+        if e.kind == "store" and e.target == tgt:
+            fresh = e.value[0] in ("alloc", "const", "list", "dict", "tuple", "new") and not e.loops and not e.guards and not e.aug
+            return fresh and not any(t == tgt for top in tops for t in subterms(top))
+        if e.kind == "store":
+            tops.append(e.target)
+        if any(t == tgt for top in tops for t in subterms(top)):
+            return False  # read before it is re-created
+    return False
 
 
 def _peel(t):
